@@ -424,6 +424,12 @@ def upper_bound(poly, facts, hi, max_facts=2):
             for f in combo:
                 acc = acc + f
             cands.append(acc)
+    # a positive multiple of a single fact that cancels one of the positive terms of poly
+    for f in facts:
+        for mon, c in poly.t.items():
+            fc = f.t.get(mon, 0)
+            if mon and c > 0 and fc > 0 and c % fc == 0 and c // fc > 1:
+                cands.append(f * (c // fc))
     for acc in cands:
         q = poly - acc
         b = 0
@@ -445,3 +451,43 @@ def upper_bound(poly, facts, hi, max_facts=2):
 def lower_bound(poly, facts, hi, max_facts=2):
     u = upper_bound(-poly, facts, hi, max_facts)
     return None if u is None else -u
+
+
+def poly_value(poly, env):
+    """integer value of a Poly under an assignment atom -> int (None if an atom is missing)"""
+    tot = 0
+    for mon, c in poly.t.items():
+        v = c
+        for a in mon:
+            if a not in env:
+                return None
+            v *= env[a]
+        tot += v
+    return tot
+
+
+def small_model(cons, extra_values=(), limit=200000):
+    """An assignment of small non-negative integers to the atoms that satisfies every (Poly, op) in cons, or None.
+    Candidates per atom: 0..3 and the constants that occur in the constraints (and their neighbours).  This only
+    exhibits a witness for a path condition that was already derived; finding none proves nothing."""
+    from itertools import product
+    atoms = sorted({a for p, op in cons for a in p.atoms()}, key=repr)
+    vals = {0, 1, 2, 3}
+    for p, op in cons:
+        c = abs(p.t.get((), 0))
+        vals.update(v for v in (c - 1, c, c + 1) if v >= 0)
+    vals.update(extra_values)
+    vals = sorted(vals)
+    if len(vals) ** max(1, len(atoms)) > limit:
+        vals = vals[:6]
+    for combo in product(vals, repeat=len(atoms)):
+        env = dict(zip(atoms, combo))
+        ok = True
+        for p, op in cons:
+            v = poly_value(p, env)
+            if v is None or not (v <= 0 if op == '<=' else v == 0 if op == '==' else v != 0):
+                ok = False
+                break
+        if ok:
+            return env
+    return None
